@@ -4,7 +4,6 @@ import (
 	"fmt"
 	"github.com/aml-org/amf-custom-validator/internal/misc"
 	"github.com/aml-org/amf-custom-validator/internal/parser/profile"
-	"strings"
 )
 
 func GenerateScalarIntersectSetRule(containsSome profile.ScalarSetRule, iriExpander *misc.IriExpander) []SimpleRegoResult {
@@ -25,7 +24,7 @@ func GenerateScalarIntersectSetRule(containsSome profile.ScalarSetRule, iriExpan
 		"    mapped := as_string(original)\n}\n" // cast value to string for matching with argument value
 	rego = append(rego, fmt.Sprintf(rego_convert_to_string_set, actualValuesVariable, actualValuesVariable))
 
-	rego = append(rego, fmt.Sprintf("%s = { \"%s\"}", containsSomeVariable, strings.Join(containsSome.Argument, "\",\"")))
+	rego = append(rego, fmt.Sprintf("%s = { %s}", containsSomeVariable, regoStringList(containsSome.Argument)))
 
 	// assert that the difference between containsSome and actualValues is different from all containsSome
 	if containsSome.Negated {
@@ -49,7 +48,7 @@ func GenerateScalarIntersectSetRule(containsSome profile.ScalarSetRule, iriExpan
 		Path:       tracePath,
 		TraceNode:  containsSome.Variable.Name,
 		TraceValue: BuildTraceValueNode(
-			fmt.Sprintf("\"negated\":%t,\"actual\": %s,\"expected\": \"%s\"", containsSome.Negated, fmt.Sprintf("%s_string", actualValuesVariable), containsSome.JSONValues()),
+			fmt.Sprintf("\"negated\":%t,\"actual\": %s,\"expected\": \"%s\"", containsSome.Negated, fmt.Sprintf("%s_string", actualValuesVariable), regoStringContent(jsonStringList(containsSome.Argument))),
 		),
 		Variable: actualValuesVariable,
 	}
